@@ -32,8 +32,7 @@ TRUSTED = ['np.dot(A, B, out=buf) accepts buf exactly when it is a writeable, al
            'functools.lru_cache on _dft2_coords returns the arrays it was given (history independence is only observed: bursts of '
            'repeated shapes in the generator)']
 UNPROVEN = ['out=: the theorems are about a buffer model; its np.dot(out=) acceptance condition is NumPy\'s contract written by hand (trusted, observed by c01.out on every generated buffer), only dft2\'s own dtype guard and "the result is the buffer" are regenerated. Not in the model: the in-place call out=f (buffer aliasing the input; relies on NumPy evaluating E1.dot(f) before writing — in-place correspondence cases only), alignment, non-2-D or empty results, and idft2(out=) (conj/divide written into the buffer: differential and oracle only)',
-            'the rolled round trip is proved on a full period only (α = 1/m, 1/n, output shape = input shape); with an oversampled period and offsets/shifts no theorem describes it and it is not generated; a non-integer inverse shift has no theorem; '
-            'Parseval holds for any shift and offset']
+            'the rolled round trip is proved on a full period only (α = 1/m, 1/n, output shape = input shape); with an oversampled period and offsets/shifts no theorem describes it and it is not generated; a non-integer inverse shift has no theorem']
 ASSUMPTIONS = ['shapes are at least 1x1; α, shifts real; offsets integers; inversion/Parseval only claimed on a full period '
                '(α = 1/m, 1/n, output shape = input shape; zero shift/offset for idft2 ∘ dft2 = id, integer offsets and integer inverse shift for the rolled form) with the same flag on both sides; out= buffers are aligned and do not overlap the input (except the in-place cases, oracle only)']
 
